@@ -241,7 +241,32 @@ theorem metaSegs_index (c : Str) (i : Nat) (o : Opts) (ho : o.includeIndex = tru
   · exact ⟨[], by simp [hc, ho, List.intercalate]⟩
   · exact ⟨c ++ " ".toList, by simp [hc, ho, List.intercalate]⟩
 
+/-- Reading is defined on the string: the rendering of a flat, brace-free segment list parses back to
+that list (adjacent plain pieces joined), so both readings of the string are the readings of the
+segments. -/
+theorem C14_render_parse (segs : List Seg) (hb : BraceFree segs) :
+    (parse (render segs)).map rejectView = some (rejectView segs) ∧
+    (parse (render segs)).map acceptView = some (acceptView segs) := by
+  rw [parse_render segs hb]
+  simp [rejectView_normAcc, acceptView_normAcc]
+
+/-- The string the code returns, read with every suggestion rejected, is the input text. -/
+theorem C14_read_rejected (text : Str) (edits : List MEdit) (o : Opts) (h : FzInBounds text edits)
+    (hb : BraceFree (previewSegs text edits o)) :
+    (parse (previewStr text edits o)).map rejectView = some text := by
+  rw [C14_render_flat text edits o h, (C14_render_parse _ hb).1, C14_reject_lossless text edits o h]
+
+/-- … and read with every suggestion accepted it is the text with every kept match replaced. -/
+theorem C14_read_accepted (text : Str) (edits : List MEdit) (o : Opts) (h : FzInBounds text edits)
+    (ho : o.highlightOnly = false) (hb : BraceFree (previewSegs text edits o)) :
+    (parse (previewStr text edits o)).map acceptView = some (applyEdits text (scriptOf text edits)) := by
+  rw [C14_render_flat text edits o h, (C14_render_parse _ hb).2, C14_accept_exact text edits o h ho]
+
 /-! Non-vacuity -/
+example : parse "a_{--b c--}{++Q++}{>>why [Edit:1]<<} x".toList =
+    some [.plain "a_".toList, .del "b c".toList, .ins "Q".toList, .note "why [Edit:1]".toList, .plain " x".toList] := by
+  decide
+
 def sampleEdits : List MEdit :=
   [⟨"__".toList, "X".toList, [], some (2, 2)⟩, ⟨"b c".toList, "Q".toList, "why".toList, none⟩,
    ⟨"**Term**".toList, "**Name**".toList, [], none⟩]
